@@ -211,12 +211,11 @@ func collectEntryNodes(node Node, m map[reflect.Type]struct{}) {
 		for _, el := range node.Nodes {
 			collectEntryNodes(el, m)
 		}
-	case Not:
-		collectEntryNodes(node.Node, m)
 	case Binding:
 		collectEntryNodes(node.Node, m)
-	case Nil, nil:
-		// this branch is reached via bindings
+	case Not, Nil, nil:
+		// Not matches whatever its operand doesn't match, which can be any kind of node.
+		// The Nil and nil branches are reached via bindings.
 		for _, T := range allTypes {
 			m[T] = struct{}{}
 		}
